@@ -12,5 +12,5 @@ CONSTANTS
   Concrete <- NamesPlain
   Now = 100
   FixStaleDb = TRUE
-  OracleTarget = TRUE
+  LiveDbGuard = TRUE
   SafeKeys = TRUE
